@@ -187,9 +187,9 @@ class LayoutEngine(object):
                 h_list.append([downsample * heights_pred[0], downsample * heights_pred[1]])
 
         # sort lines from LEFT to RIGHT
-        x_inds = [np.amin(baseline[:, 0]) + 0.0001 * np.random.rand() for baseline in b_list]
-        b_list = [b for _, b in sorted(zip(x_inds, b_list))]
-        h_list = [h for _, h in sorted(zip(x_inds, h_list))]
+        order = sorted(range(len(b_list)), key=lambda i: np.amin(b_list[i][:, 0]))
+        b_list = [b_list[i] for i in order]
+        h_list = [h_list[i] for i in order]
 
         t_list = [helpers.baseline_to_textline(b, h) for b, h in zip(b_list, h_list)]
 
